@@ -461,3 +461,30 @@ def replay(payload):
         return {"violates": bool(v), "detail": v}
     v = _judge(sc) or _judge_from_state(sc) or _judge_saved_state(sc)
     return {"violates": bool(v), "detail": v}
+
+
+def pregen(ctx):
+    """tie (T): re-translate Node.zero_state / state / reset / _flag_feedback / with_state (node.py), call (_base.py) and Model.reset /
+    Model.with_state (model.py) of the tree under test into coq/gen/Gen_state.v (translator vlib/py2coq_state.py, vocabulary
+    coq/base/CtxPrelude.v); proofs/Gen_state_eq.v then proves them equal to the state contexts of model/ModelSem.v.  Returns None or the
+    error text; on rejection a stub that does not compile replaces the file (never a stale model)."""
+    import os
+    import traceback
+    from vlib import py2coq_state
+    path = os.path.join(core.COQ, "gen", "Gen_state.v")
+    os.makedirs(os.path.dirname(path), exist_ok=True)
+    err = None
+    try:
+        text = py2coq_state.emit(core.REPO)
+    except py2coq_state.Reject as ex:
+        err = "translation rejected: %s" % ex
+    except Exception:
+        err = "translator exception: " + traceback.format_exc()[-1500:]
+    if err is not None:
+        text = "(* GENERATED: translation of the state machinery FAILED -- %s *)\nDefinition translation_failed : True := 0.\n" % (
+            err.replace("*)", "* )").replace("(*", "( *"))
+    old = open(path).read() if os.path.exists(path) else None
+    if old != text:               # keep the mtime (and the compiled cone) when nothing changed
+        with open(path, "w") as f:
+            f.write(text)
+    return None if err is None else "unit state (Node.with_state / reset / zero_state / state, _base.call, Model.with_state / reset): %s" % err
